@@ -11,7 +11,7 @@ from typing import Callable
 
 import onnx  # ruff: ignore[banned-api]
 
-from onnx_ir import _core, _protocols, serde
+from onnx_ir import _core, _enums, _protocols, serde
 from onnx_ir import external_data as _external_data
 from onnx_ir._polyfill import zip
 
@@ -40,6 +40,19 @@ def load(path: str | os.PathLike, format: str | None = None) -> _core.Model:
     for function in model.functions.values():
         # Tensor attributes of nodes in functions can be external as well
         _external_data.set_base_dir(function.graph, base_dir)
+        # ... and so can the default values of the function's own attributes
+        for attr in function.attributes.values():
+            if attr.is_ref() or attr.value is None:
+                continue
+            if attr.type == _enums.AttributeType.TENSOR:
+                default_tensors = (attr.value,)
+            elif attr.type == _enums.AttributeType.TENSORS:
+                default_tensors = tuple(attr.value)
+            else:
+                continue
+            for tensor in default_tensors:
+                if isinstance(tensor, _core.ExternalTensor):
+                    tensor.base_dir = base_dir
     return model
 
 
